@@ -175,7 +175,15 @@ class EnsembleAdapter:
             self.e = self.CE([self.mol(m) for m in act["ms"]], n_conformers=int(act.get("n", 0)))
         elif a == "newcopy":
             self._drop()
-            self.src, self.e = e, self.CE(e, n_conformers=int(act.get("n", 0)))
+            n = int(act.get("n", 0))
+            if n == 0 and self.rnd.random() < 0.4:
+                # the other public way to the same copy: an ensemble without atoms adopts atoms, bonds and conformers of the
+                # first ensemble it is extended with; source and copy are independent afterwards (seeded change C14-k)
+                d = self.CE()
+                d.extend(e)
+                self.src, self.e = e, d
+            else:
+                self.src, self.e = e, self.CE(e, n_conformers=n)
         elif a == "append":
             self.its = {}                 # running iterations are abandoned; every conformer already held is KEPT
             e.append(self.mol(act["m"]))
